@@ -1,3 +1,4 @@
+@refrac.setter
 def spec(self, value):
     if value is None:
         self.__derive_refrac = True
